@@ -213,6 +213,16 @@ MALFORMED = [
 ]
 
 
+def respell(rng, gate):
+    """gate names are case-insensitive: lower-case and mixed-case spellings in a third of the gates (the validation rules
+    apply to the name whatever its spelling)"""
+    if isinstance(gate.get("n"), str) and rng.random() < 0.33:
+        nm = gate["n"]
+        gate = dict(gate)
+        gate["n"] = nm.lower() if rng.random() < 0.5 else "".join(ch.lower() if rng.random() < 0.5 else ch.upper() for ch in nm)
+    return gate
+
+
 def rand_history(rng, n_ops, names, max_width=5, allow_measure=True):
     """a random operation history over a small store; returns list of ops"""
     ops = []
@@ -248,9 +258,9 @@ def rand_history(rng, n_ops, names, max_width=5, allow_measure=True):
         if k == "new":
             new_circ()
         elif k == "add_gate":
-            ops.append({"op": "add_gate", "dst": a, "gate": rand_gate(rng, min(w + rng.choice([0, 0, 1]), 7), names)})
+            ops.append({"op": "add_gate", "dst": a, "gate": respell(rng, rand_gate(rng, min(w + rng.choice([0, 0, 1]), 7), names))})
         elif k == "add_bad":
-            ops.append({"op": "add_gate", "dst": a, "gate": rng.choice(MALFORMED)(rng, w)})
+            ops.append({"op": "add_gate", "dst": a, "gate": respell(rng, rng.choice(MALFORMED)(rng, w))})
         elif k == "add":
             d = fresh(); b = rng.choice(ids[:-1]); widths[d] = max(widths.get(a, 3), widths.get(b, 3))
             ops.append({"op": "add", "dst": d, "a": a, "b": b})
